@@ -8,8 +8,8 @@ parameter spec (first word of every request): `<dividehex>/<hasattrs 0|1>/<attrh
 
 * `c16split` : `<pspec> <linehex>`                   → `lab=<hex> op=<hex> attr=<hex> n=<k> args=<hex>,<hex>,..|.`
    (model of SplitLine + NLS_UpString(OpPart): `op` is given upper-cased, `rawop` as split)
-* `c16pair`  : `<pspec> <linehex> <linehex'>`        → `eq=<0|1> blank=<0|1> blank2=<0|1>`
-   (fields of both lines equal up to letter case of op/attr; whether the lines are blank)
+* `c16pair`  : `<pspec> <linehex> <linehex'>`        → `eq=<0|1> blank=<0|1> blank2=<0|1> eqc=<0|1>`
+   (fields of both lines equal up to letter case of op/attr; whether the lines are blank; eqc = equal up to letter case of op/attr and of the parameters)
 * `c16read`  : `<texthex>`                           → `n=<k> lines=<hex>:<physical count>,..|.`   (model of ReadLnCont over a whole file)
 * `c16px`    : `<pspec> <kind plain|c6x|op|rpt|altd> <linehex> [<linehex'>]`
                                                      → `px=<0|1> ok=<0|1> pre=<hex>,..|. lab= op= attr= n= args=` [` eq=<0|1>`]
@@ -74,7 +74,7 @@ def handlePair (line : String) : String :=
     | some p, some a, some b =>
       let fa := split p a
       let fb := split p b
-      s!"eq={b01 (decide (fa.norm = fb.norm))} blank={b01 fa.isBlank} blank2={b01 fb.isBlank}"
+      s!"eq={b01 (decide (fa.norm = fb.norm))} blank={b01 fa.isBlank} blank2={b01 fb.isBlank} eqc={b01 (decide (fa.normAll = fb.normAll))}"
     | _, _, _ => "bad-request"
   | _ => "bad-request"
 
